@@ -16,7 +16,7 @@ Lemma C16_inst_registry :
   && row_ok "B104" "hardcoded_bind_all_interfaces" None ["Str"]
   && row_ok "B105" "hardcoded_password_string" None ["Str"]
   && row_ok "B106" "hardcoded_password_funcarg" None ["Call"]
-  && row_ok "B107" "hardcoded_password_default" None ["FunctionDef"]
+  && row_ok "B107" "hardcoded_password_default" None ["FunctionDef"; "AsyncFunctionDef"]
   && row_ok "B108" "hardcoded_tmp_directory" (Some "hardcoded_tmp_directory") ["Str"] = true.
 Proof. vm_compute. reflexivity. Qed.
 Print Assumptions C16_inst_registry.
